@@ -318,6 +318,7 @@ def DocItem.x : DocItem → XBlock α
   | .step segs => .step (segs.map SegX.x)
   | .sectionLine name _ => .sect (name.map leafText)
   | .metaLine k v _ => .entry (leafText k) (leafText v)
+  | .para lines => .para (lines.flatMap PLine.text)
 
 def DocItem.lockOK : DocItem → Bool
   | .step segs => segs.all SegX.lockOK
@@ -345,6 +346,11 @@ theorem rtdr_item_block (env : Env) (d : DocItem) (evs : List (Ev α)) (h : DocI
     refine ⟨.entry kt vt, rfl, ⟨?_, ?_⟩, by simp only [SBlock.x, DocItem.x, h1, h3]⟩
     · rw [h1]; exact hp.1
     · rw [h1, h3]; exact hp.2
+  | para lines =>
+    obtain ⟨ts, rfl, hm⟩ := h
+    refine ⟨.para ts, rfl, trivial, ?_⟩
+    simp only [SBlock.x, DocItem.x]
+    rw [List.flatMap_def, List.flatMap_def, hm]
 
 theorem rtdr_doc_blocks (env : Env) (doc : List (DocItem × List Tok)) (evss : List (List (Ev α)))
     (h : All2 (fun (d : DocItem × List Tok) evs => DocItemEvs env.cs d.1 evs) doc evss)
